@@ -36,7 +36,7 @@ AlocEff(vm, w) ==
         newHp == IF tooBig THEN "0" ELSE BN!Sub(R(vm, HP), n)
         pan == IF tooBig THEN {"MemoryOverflow"} ELSE IF BN!Lt(newHp, R(vm, SP)) THEN {"MemoryGrowthOverlap"} ELSE {}
     IN Eff(Dep(GasOf(vm, "aloc"), n), pan, (HP :> newHp) @@ StepPc(vm),
-           IF pan = {} /\ n # "0" THEN <<<<BN!ToNat(newHp), Zeros(BN!ToNat(n))>>>> ELSE <<>>,
+           IF pan = {} /\ n # "0" THEN ZeroFill(vm.mem, BN!ToNat(newHp), BN!ToNat(n)) ELSE <<>>,
            IF pan = {} /\ BN!ToNat(newHp) < vm.slen THEN BN!ToNat(newHp) ELSE vm.slen)
 \* stack frame extension / shrinking
 NewSpEff(vm, gas, newSp, pan0) ==
